@@ -286,7 +286,7 @@ pub(super) fn derive_schema(input: TokenStream) -> syn::Result<TokenStream> {
                 })
             }
 
-            Fields::Unnamed(FieldsUnnamed { paren_token:_, unnamed }) => {assert!(unnamed.len() >= 2);/* array of oneOf */
+            Fields::Unnamed(FieldsUnnamed { paren_token:_, unnamed }) => {assert!(unnamed.len() >= 2);/* array of anyOf */
                 let mut type_schemas = Vec::with_capacity(unnamed.len());
                 for u in unnamed {
                     let field_attrs = FieldAttributes::new(&u.attrs)?;
@@ -328,7 +328,8 @@ pub(super) fn derive_schema(input: TokenStream) -> syn::Result<TokenStream> {
                 }
 
                 Ok(quote! {
-                    ::ohkami::openapi::array(::ohkami::openapi::oneOf(
+                    /* `anyOf`: two members can have the same type, and then an element matches both */
+                    ::ohkami::openapi::array(::ohkami::openapi::anyOf(
                         (#(#type_schemas,)*)
                     ))
                 })
